@@ -194,7 +194,19 @@ TCall ==
   /\ etags' = E /\ mtimes' = M
   /\ prog' = prog /\ taken' = taken \cup tk /\ l' = l + 1
 
-TNext == l <= Len(Trace) /\ (TReset \/ TCall)
+\* C03 (fault_sequences): an attempt of the call into which the harness injected a fault (broken
+\* request body; error at the k-th pre-commit hook / at the SQL COMMIT).  It must return an
+\* error and leave every bucket, version, tag, upload and listing exactly as before.
+TFault ==
+  LET e == Trace[l] IN
+  /\ e.call.op # "Reset" /\ e.fault # "none"
+  /\ IF e.res.err = "" THEN Diag(l, "fault-succeeded", [r |-> NoRes, s |-> S], e) /\ FALSE
+     ELSE IF LViews(e.views) # MViews(S) THEN Diag(l, "fault-left-trace", [r |-> NoRes, s |-> S], e) /\ FALSE
+     ELSE IF ~FlagsOK(e.views) THEN Diag(l, "flags", [r |-> NoRes, s |-> S], e) /\ FALSE
+     ELSE TRUE
+  /\ UNCHANGED <<S, res, hist, etags, mtimes, prog, taken>> /\ l' = l + 1
+
+TNext == l <= Len(Trace) /\ (TReset \/ (Trace[l].call.op # "Reset" /\ Trace[l].fault = "none" /\ TCall) \/ TFault)
 
 \* ------------------------------------------------ invariants on the observed behaviour
 \* evaluated on behaviours in which the code has followed the intended design so far
